@@ -1261,13 +1261,41 @@ def excluded_features():
     return {f for k, f in FEATURES.items() if k in keys}
 
 
-def gen_case(rng, feats):
+def gen_case(rng, feats, malformed=0.0):
     import random
-    g = ModelGen(random.Random(rng.getrandbits(64)), feats)
+    r = random.Random(rng.getrandbits(64))
+    g = ModelGen(r, feats)
     model = g.model()
     if "shift-bare" in feats:
         model = _atomise_shift(model)
+    if r.random() < malformed:
+        model = malform(model, g, r)
     return model
+
+
+def malform(model, g, r):
+    """a source that must be rejected: both the implementation (exception) and the model (CFail)"""
+    ref = reference_model(model)
+    names = list(ref["quantities"])
+    nodes = list(model["nodes"])
+    kind = r.choice(["allbut", "log-parameter", "no-equation", "duplicate", "undeclared"])
+    q = lambda n: ("item", ("qty", [], lit(n)))   # noqa
+    if kind == "allbut":
+        nodes += [("item", ("kw", "log", True, 0)), ("item", ("kw", "log", False, 0))]
+    elif kind == "log-parameter":
+        nodes += [("item", ("kw", "qty", "P", 0)), q("zz_par"), ("item", ("kw", "log", False, 0)), ("item", ("log", lit("zz_par")))]
+        if any(it[0] == "kw" and it[1] == "log" and it[2] for it in py_resolve(model["nodes"], model["context"])):
+            nodes[-2] = ("item", ("kw", "log", True, 0))
+    elif kind == "no-equation":
+        nodes += [("item", ("kw", "qty", r.choice(["TV", "MV"]), 0)), q("zz_extra")]
+    elif kind == "duplicate" and names:
+        n = r.choice(names)
+        nodes += [("item", ("kw", "qty", r.choice(["P", "EX"]), 0)), q(n)]
+    else:
+        nodes += [("item", ("kw", "qty", "TV", 0)), q("zz_v"), ("item", ("kw", "eqn", "T", 0)),
+                  ("item", ("eqn", [], {"lhs": ("name", lit("zz_v"), ("z", 0, "curly")), "assign": False,
+                                        "rhs": ("name", lit("zz_nowhere"), ("z", -1, "curly")), "tails": []}, None))]
+    return {"context": model["context"], "nodes": nodes, "malformed": kind}
 
 
 def _atomise_shift(model):
@@ -1380,11 +1408,13 @@ def correspondence(ctx) -> CorrResult:
     res = CorrResult()
     dist = {"items": {}, "directives": {}, "pseudofunctions": {}, "max_nesting": 0, "steady_variants": 0,
             "equations_with_inline_directives": 0, "substitution_uses": 0, "context_values": 0,
-            "implementation_errors": {}, "excluded_features": sorted(feats), "equations": 0, "quantities": 0}
+            "implementation_errors": {}, "malformed": {}, "excluded_features": sorted(feats), "equations": 0, "quantities": 0}
     cases, texts, jobs = [], set(), []
     for i in range(n_models):
-        model = gen_case(rng, feats)
+        model = gen_case(rng, feats, malformed=0.06)
         model_stats(model, dist)
+        if model.get("malformed"):
+            dist["malformed"][model["malformed"]] = dist["malformed"].get(model["malformed"], 0) + 1
         for j in range(n_render):
             jobs.append((model, Render(random.Random(rng.getrandbits(64)), feats=feats).source(model)))
     import time
@@ -1703,7 +1733,17 @@ def probe_models():
     m3 = {"context": {}, "nodes": [kwv, q("a"), kws, q("e"), kwe,
           eq(nm("a"), ("bin", "Add", "caret", ("bin", "Add", "caret", ("bin", "Mul", "caret", ("num", 5, 1), nm("a", -1)), nm("e")),
                        ("bin", "Mul", "caret", ("num", 3, 1), nm("e", -1))))]}
-    return [m1, m2, m3]
+    # controls: the same sources without the feature under test
+    c1 = {"context": {}, "nodes": [kwv, q("a"), q("b"), kwp, q("p"), kwe,
+          eq(nm("a"), ("bin", "Mul", "caret", nm("p"), ("paren", ("pseudo", "shift", ("bin", "Add", "caret", nm("a"), nm("b")), None)))),
+          eq(nm("b"), ("bin", "Div", "caret", ("bin", "Mul", "caret", ("num", 2, 0),
+                                               ("paren", ("pseudo", "shift", ("bin", "Sub", "caret", nm("b"), nm("a")), -2))), nm("a")))]}
+    c2 = {"context": {}, "nodes": [kwv, q("a"), q("b"), kwe, ("if", cd, [eq(nm("b"), one)], [eq(nm("b"), ("num", 2, 0))]),
+                                   ("if", cd, [eq(nm("a"), one)], None)]}
+    c3 = {"context": {}, "nodes": [kwv, q("a"), kws, q("e"), kwe,
+          eq(nm("a"), ("bin", "Add", "caret", ("bin", "Mul", "caret", ("num", 5, 1), nm("a", -1)),
+                       ("bin", "Mul", "caret", ("num", 3, 1), nm("e"))))]}
+    return [m1, m2, m3], [c1, c2, c3]
 
 
 def _falsify_worker(job):
@@ -1735,14 +1775,19 @@ def falsify(ctx, hints):
     info = {"probes": {}, "models": 0, "renderings": 0, "equation_evaluations": 0, "variant_pairs": 0}
     # 1. targeted probes (stable keys for the three repaired defects)
     broken_feats = set()
-    for (key, feat, _txt), model in zip(PROBES, probe_models()):
-        src = Render(random.Random(0), restyle=False, noisy=False).source(model)
-        fs = check_model(model, src, 12345)
+    probes, controls = probe_models()
+    for (key, feat, _txt), model, control in zip(PROBES, probes, controls):
+        plain = Render(random.Random(0), restyle=False, noisy=False)
+        fs = check_model(model, plain.source(model), 12345)
         info["probes"][key] = "ok" if not fs else fs[0].what[:120]
         if fs:
             f = fs[0]
-            fails.append(Failure(key, f.what, f.input, f.observed, f.required, f.repro))
             broken_feats.add(feat)
+            if check_model(control, plain.source(control), 12345):
+                # the same source without the feature fails as well: not this defect
+                fails.append(Failure("probe-control:" + f.key, f.what, f.input, f.observed, f.required, f.repro))
+            else:
+                fails.append(Failure(key, f.what, f.input, f.observed, f.required, f.repro))
     feats = excluded_features() | broken_feats
     # 2. inputs on which model and implementation disagreed
     for d in hints.get("disagreements", [])[:10]:
